@@ -122,6 +122,7 @@ def tasks(tier):
     for name in LAYOUTS():
         ts += [("const-read", name), ("const-build", name), ("view", name), ("view-assign", name)]
     ts += [("enum-roundtrip",), ("flags", 0), ("flags", 1), ("flags", 2)]
+    ts += [("class-const", c) for c in ("SDef", "SPlain", "UDef")]
     return ts
 
 
@@ -367,6 +368,108 @@ def check_const_build(lname):
     return res
 
 
+def _agg_classes():
+    from amaranth.hdl import unsigned, signed
+    from amaranth.lib import data
+
+    class SDef(data.Struct):
+        a: 4 = 5
+        b: signed(3) = -2
+        c: 2
+
+    class SPlain(data.Struct):
+        a: 4
+        b: signed(3)
+        c: 2
+
+    class UDef(data.Union):
+        x: 4 = 9
+        y: signed(2)
+    return {"SDef": (SDef, {"a": 5, "b": -2, "c": 0}), "SPlain": (SPlain, {"a": 0, "b": 0, "c": 0}), "UDef": (UDef, None)}
+
+
+def check_class_const(cname):
+    """Struct / Union CLASSES (the annotation form): cls.const(init) is a function of init and of the declared field
+    initialisers -- a field named in init reads back the given value, any other field its declared initial value (0 when
+    none is declared) -- for every SEQUENCE of two calls on the same class (the second call's result does not depend on
+    the first call), and const() leaves the class's declared initialisers unchanged (frame)."""
+    U, A, D = _mods()
+    cls, declared = _agg_classes()[cname]
+    name = f"class-const[{cname}]"
+    layout = cls.as_shape()
+    keys = [k for k, _f in layout]
+    is_union = isinstance(layout, D.UnionLayout)
+    import itertools as _it
+    subsets = [tuple(c) for r in range(len(keys) + 1) for c in _it.combinations(keys, r)]
+    if is_union:
+        subsets = [c for c in subsets if len(c) <= 1]
+
+    def snapshot():
+        return repr(sorted(cls._AggregateMeta__default.items()))
+
+    def make_body(first, second):
+        pair = f"[{','.join(first) or '-'}]then[{','.join(second) or '-'}]"
+
+        def body(path):
+            cls._AggregateMeta__default.clear()             # every path starts from the class as declared
+            cls._AggregateMeta__default.update(pristine)
+            before = snapshot()
+            for rnd, subset in (("1st", first), ("2nd", second)):
+                init = {}
+                for k in subset:
+                    w = layout[k].width
+                    # the first call's values are fixed (all different from the declared initial values); the second's are symbolic
+                    init[k] = {"a": 1, "b": 1, "c": 1, "x": 3, "y": 1}[k] if rnd == "1st" else path.var(f"{rnd}_{k}", -(1 << w), (1 << w))
+                forms = [init] if subset else [init, None]
+                for form in forms:
+                    with shimmed(U, A, D):
+                        c = cls.const(form)
+                    tag = f"{name}::{pair}::{rnd}" + ("::None" if form is None else "")
+                    if is_union:
+                        if subset:
+                            k = subset[0]
+                            sh = A.Shape.cast(layout[k].shape)
+                            path.prove(f"{tag}::readback[{k}]", to_sint(c[k]) == to_sint(norm(init[k], sh.width, sh.signed)))
+                        else:
+                            path.prove(f"{tag}::declared-initial-value[x]", to_sint(c["x"]) == 9)
+                        continue
+                    for k in keys:
+                        sh = A.Shape.cast(layout[k].shape)
+                        if k in init:
+                            path.prove(f"{tag}::readback[{k}]", to_sint(c[k]) == to_sint(norm(init[k], sh.width, sh.signed)))
+                        else:
+                            path.prove(f"{tag}::declared-initial-value[{k}]", to_sint(c[k]) == declared[k])
+            path.prove(f"{name}::{pair}::declared-initialisers-unchanged", snapshot() == before)
+        return body
+    parts = []
+    pristine = dict(cls._AggregateMeta__default)
+    for first in subsets:
+        for second in subsets:
+            saved = dict(pristine)
+            try:
+                parts.append(runner.from_exploration(name, Exploration(name, make_body(first, second)).run()))
+            finally:
+                cls._AggregateMeta__default.clear()          # a refuted frame obligation must not leak into the next pair
+                cls._AggregateMeta__default.update(saved)
+    res = runner.merge_results(name, parts)
+    # the same through the other public routes, closed: Signal(cls, init=...) and hdl.Const(init, cls) after an earlier call
+    from amaranth.hdl import Signal as HSignal
+    bad = None
+    if not is_union:
+        cls.const({"a": 1, "b": 1, "c": 1})
+        got = HSignal(cls).as_value().init
+        want = cls.as_shape().const(declared).as_bits()
+        if got != want:
+            bad = {"class": cname, "sequence": "cls.const({'a':1,'b':1,'c':1}); Signal(cls).init", "returned": got, "expected": want}
+        got2 = HSignal(cls, init={"c": 3}).as_value().init
+        want2 = cls.as_shape().const({**declared, "c": 3}).as_bits()
+        if bad is None and got2 != want2:
+            bad = {"class": cname, "sequence": "cls.const({...}); Signal(cls, init={'c': 3}).init", "returned": got2, "expected": want2}
+        res["obligations"].append({"name": f"{name}::signal-init-after-earlier-const", "kind": "post", "status": "proved" if bad is None else "refuted",
+                                   "backend": "closed", "time_s": 0.0, **({} if bad is None else {"failing_input": bad})})
+    return res
+
+
 def check_view(lname, broken=False):
     from amaranth.hdl import Signal, Value, Shape
     U, A, D = _mods()
@@ -587,6 +690,8 @@ def run_task(task):
         return check_view(task[1])
     if k == "view-assign":
         return check_view_assign(task[1])
+    if k == "class-const":
+        return check_class_const(task[1])
     if k == "enum-roundtrip":
         return check_enum_roundtrip()
     if k == "flags":
